@@ -680,10 +680,56 @@ int __wrap_nanosleep(const struct timespec *req, struct timespec *rem) {
     vs_schedule();
     return 0;
 }
+/* Page recycling (only when a scenario sets vs_page_recycle): 4096-byte aligned pages that the library gives back to
+ * the system are retired instead of freed, and the harness allocator later serves large blocks from INSIDE a retired
+ * page - exactly what a real malloc does with freed memalign memory. Whatever the library left in such a page (e.g. a
+ * page header it meant to erase) is then in front of a block owned by somebody else. */
+static int vs_page_recycle;
+#define VS_MAXPAGES 512
+static void *vs_pages[VS_MAXPAGES];   /* live pages handed out by posix_memalign(4096, 4096) */
+static void *vs_retired[VS_MAXPAGES]; /* given back by the library, available for large blocks */
+static int vs_npages, vs_nretired;
 int __real_posix_memalign(void **, size_t, size_t);
+void __real_free(void *);
 int __wrap_posix_memalign(void **out, size_t align, size_t size) {
     vs_point(); /* obtaining a page from the system: a natural preemption point inside library critical sections */
-    return __real_posix_memalign(out, align, size);
+    int rc = __real_posix_memalign(out, align, size);
+    if (rc == 0 && vs_page_recycle && align == 4096 && size == 4096 && vs_npages < VS_MAXPAGES) {
+        vs_pages[vs_npages++] = *out;
+    }
+    return rc;
+}
+void __wrap_free(void *p) {
+    if (p && vs_page_recycle) {
+        for (int i = 0; i < vs_npages; ++i) {
+            if (vs_pages[i] == p) {
+                vs_pages[i] = vs_pages[--vs_npages];
+                if (vs_nretired < VS_MAXPAGES) {
+                    vs_retired[vs_nretired++] = p;
+                    return; /* retired, not freed */
+                }
+                break;
+            }
+        }
+    }
+    __real_free(p);
+}
+/* called by the harness allocator: a block of n bytes carved from the inside of a retired page, or NULL */
+static void *vs_take_from_retired_page(size_t n) {
+    if (!vs_page_recycle || vs_nretired == 0 || n + 32 > 4096) {
+        return NULL;
+    }
+    return (uint8_t *)vs_retired[--vs_nretired] + 32;
+}
+static bool vs_give_back_to_retired(void *p) {
+    if (!vs_page_recycle || ((uintptr_t)p & 4095) != 32) {
+        return false;
+    }
+    void *page = (uint8_t *)p - 32;
+    if (vs_nretired < VS_MAXPAGES) {
+        vs_retired[vs_nretired++] = page;
+    }
+    return true;
 }
 pthread_t __wrap_pthread_self(void) {
     return __real_pthread_self();
